@@ -1,8 +1,10 @@
 (* C15 model: panel data containers of sktime/utils/data_processing.py as list structures,
    polymorphic in the value type V, and every from_<a>_to_<b> conversion as a list function that
    follows the algorithm of the Python function (column-wise / instance-wise loops, reshape +
-   swapaxes, melt, key-based pivot).  Executable definitions only; tied to the code by the
-   correspondence run (Cases.v). *)
+   swapaxes, melt, key-based pivot).  Executable definitions only; tied to the code (a) by
+   Bridge.v / BridgeMI.v: every conversion function as regenerated from the Python source
+   (translator/panel_c15.py -> Gen.v) equals the function of this file on the containers of the
+   property, and (b) by the correspondence run (Cases.v). *)
 From Coq Require Import ZArith List Bool Lia.
 Require Import SkV.Lib.Base.
 Import ListNotations.
